@@ -87,7 +87,11 @@ impl pocket_db::verif::Hooks for SeqHooks {
                 let _ = libc::kill(libc::getpid(), libc::SIGKILL);
             }
         }
-        if st.snap_all && st.snaps.len() < st.snap_cap {
+        // (a store that grows the map dozens of times must not spend the whole budget inside the
+        // growth loop: the instants around the index writes and the commit come last)
+        let growth = matches!(name, "es:after_set_len" | "es:after_resize" | "es:after_len_store");
+        let growth_taken = if growth { st.snaps.iter().filter(|(_, n, _)| matches!(*n, "es:after_set_len" | "es:after_resize" | "es:after_len_store")).count() } else { 0 };
+        if st.snap_all && st.snaps.len() < st.snap_cap && (!growth || growth_taken < 18) {
             st.snap_counter += 1;
             let dst = st.snap_root.join(format!("snap-{}", st.snap_counter));
             if copy_store_files(&st.src_dir, &dst).is_ok() {
